@@ -13,5 +13,9 @@ def gen (_ : Nat) : List String :=
   (["S0,R0,S1,R1,R0", "S0,S1,R0,R1,R0", "S0,S1,R1,R0,R0", "S1,S0,R1,R0,R0", "S1,S0,R0,R1,R0", "S0,R0,R0,S1,R1", "S1,R1,S0,R0,R0"].flatMap fun p =>
     ["race tplbad 2 " ++ p, "expect res ok lost=[]"]) ++
   (["S0,R0,S1,S2,R1,R2,R0", "S0,S1,S2,R0,R1,R2,R0", "S1,S0,S2,R1,R0,R2,R0", "S0,S1,R0,R1,S2,R2,R0", "S2,S0,R0,S1,R2,R1,R0"].flatMap fun p =>
-    ["race tplbad 3 " ++ p, "expect res ok lost=[]"])
+    ["race tplbad 3 " ++ p, "expect res ok lost=[]"]) ++
+  -- atomicity of an announcement on the instrumented template system of cmd/goflow2: at every step of a worker that
+  -- re-announces template 256 (as the other kind of template, or as the same), another worker's data set of 256 is
+  -- never "template not found"
+  (["o2d", "d2o", "same"].flatMap fun m => ["race tplatomic " ++ m ++ " -", "expect res ok lost=[]"])
 end Goflow.Gen.C16
